@@ -163,6 +163,15 @@ Theorem c20_flush_fails_iff_some_chain_fails : forall gs alerts start dl,
   exists j g, gs !! j = Some g /\ c_failed (chain j g alerts start dl) = true.
 Proof. exact fanout_failed_iff. Qed.
 
+(* ... and a chain fails iff it had something to do and its retry stage returned an error (recoverable failures
+   until the deadline, or an unrecoverable failure: c20_retry_error_class) or its record could not be written *)
+Theorem c20_chain_fails_iff : forall i g alerts start dl,
+  c_failed (chain i g alerts start dl) = true <->
+  alerts <> [] /\ g_needs_update g = true /\
+  (r_err (retry_exec (g_send_resolved g) (Some (length (filter (fun a => firing_at start a) alerts)))
+                     alerts start dl (g_ticks g) (g_script g)) <> None \/ g_log_ok g = false).
+Proof. exact chain_failed_iff. Qed.
+
 (* ===== the data handed to templates and webhooks (for ALL batches) ===== *)
 
 (* lists exactly the alerts of the batch, in order, each with its labels, annotations, start, and its status
